@@ -471,3 +471,21 @@ CORPUS += [
     V("C17", "rollout-baseline-decodes-by-sampling", _BLS, 'return policy(batch, env, decode_type="greedy")["reward"]', 'return policy(batch, env, decode_type="sampling")["reward"]', "C17.g"),
     V("C17", "eq-rollout-baseline-env-by-keyword", _BLS, 'return policy(batch, env, decode_type="greedy")["reward"]', 'return policy(batch, env=env, decode_type="greedy")["reward"]', None),
 ]
+_FJE = S_ + "fjsp/env.py"
+_AS = "rl4co/models/zoo/deepaco/antsystem.py"
+_PM = "rl4co/models/zoo/pomo/model.py"
+CORPUS += [
+    V("C02", "fjsp-flag-kept-for-completed-jobs", _FJE, '        td["job_in_process"][op_finished] = False\n', '        td["job_in_process"][op_finished & ~job_finished] = False\n', "C02.n"),
+    V("C12", "deepaco-incumbent-from-compacted-position", _AS, "            for index in require_update:\n                self.final_actions[index] = best_actions[index]\n",
+      "            for i, index in enumerate(require_update):\n                self.final_actions[index] = best_actions[i]\n", "C12.i"),
+    V("C12", "eq-deepaco-incumbent-loop-variable-renamed", _AS, "            for index in require_update:\n                self.final_actions[index] = best_actions[index]\n",
+      "            for b_ in require_update:\n                self.final_actions[b_] = best_actions[b_]\n", None),
+    V("C16", "pomo-train-keeps-singleton-augmentation-axis", _PM, '        if phase == "train":\n            n_aug = 0\n        elif n_aug > 1:\n            td = self.augment(td)\n',
+      '        if n_aug > 1:\n            if phase == "train":\n                n_aug = 0\n            else:\n                td = self.augment(td)\n', "C16.h"),
+    V("C08", "torchrl-preset-overrides-successor", _BASE, "next_tensordict.update(next_preset.exclude(*next_tensordict.keys(True, True)))", "next_tensordict.update(next_preset)", "C08.k"),
+    V("C01", "torchrl-preset-overrides-successor", _BASE, "next_tensordict.update(next_preset.exclude(*next_tensordict.keys(True, True)))", "next_tensordict.update(next_preset)", "C01.r"),
+    V("C04", "tour-length-smoothing-epsilon", _OPS, "    return get_distance(ordered_locs_next, ordered_locs).sum(-1)\n",
+      "    return ((ordered_locs_next - ordered_locs).pow(2).sum(-1) + 1e-8).sqrt().sum(-1)\n", "C04.j"),
+    V("C08", "tour-length-smoothing-epsilon", _OPS, "    return get_distance(ordered_locs_next, ordered_locs).sum(-1)\n",
+      "    return ((ordered_locs_next - ordered_locs).pow(2).sum(-1) + 1e-8).sqrt().sum(-1)\n", "C08.j"),
+]
